@@ -117,4 +117,25 @@ def queryWin (events : List Entry) (o : StreamOpts) : List Entry :=
     let c := match o.lt with | some c => some c | none => o.lte
     (readWin events.reverse c amount (o.lte.isSome || o.lt.isNone)).reverse
 
+/-- `orbitDBEventLogStore.read` as it is since the bound is looked up among ALL the entries of the log
+(`isOp` = the payload parses as an operation): entries that are not operations are neither collected
+nor counted, but one of them may be the bound -/
+def readWinOps (isOp : Entry → Bool) (ops : List Entry) (hash : Option Nat) (amount : Nat)
+    (inclusive : Bool) : List Entry :=
+  let start := match hash with
+    | none => 0
+    | some h => match ops.findIdx? (fun e => e.hash == h) with | some i => i | none => 0
+  let start := if inclusive then start else start + 1
+  ((ops.drop start).filter isOp).take amount
+
+/-- `orbitDBEventLogStore.query` over every entry of the log (oldest first), operations or not -/
+def queryWinOps (isOp : Entry → Bool) (events : List Entry) (o : StreamOpts) : List Entry :=
+  let amount := normAmount o.amount events.length
+  if o.gt.isSome || o.gte.isSome then
+    let c := match o.gt with | some c => some c | none => o.gte
+    readWinOps isOp events c amount o.gte.isSome
+  else
+    let c := match o.lt with | some c => some c | none => o.lte
+    (readWinOps isOp events.reverse c amount (o.lte.isSome || o.lt.isNone)).reverse
+
 end Orbit
